@@ -116,6 +116,25 @@ def step (st : State) (line : String) : State × String :=
     let kinds := ((kv ws "listeners").getD "tcp").splitOn "," |>.map fun k => if k == "uds" then Kind.uds else Kind.tcp
     let cfg : Cfg := { limit := limit, nIdx := workers }
     ({ cfg := cfg, s := ActixNet.Srv.init cfg kinds, started := true }, "ok")
+  | "pse" :: _ =>
+    -- a real `Server` built through the builder, per listener: connect, pause, connect, resume.
+    -- Prediction from the accept-loop model: what is dispatched between pause and resume, and after.
+    match (kv ws "workers").bind (·.toNat?), kv ws "ls" with
+    | some w, some ls =>
+      let ks := ls.splitOn ","
+      if 1 ≤ w ∧ w ≤ 4 ∧ 1 ≤ ks.length ∧ ks.length ≤ 4 ∧ ks.all (fun k => k == "tb" || k == "tl" || k == "ub" || k == "ul") then
+        let cfg : Cfg := { limit := 25600, nIdx := w }
+        let kinds := ks.map fun k => if k == "ub" || k == "ul" then Kind.uds else Kind.tcp
+        let n := ks.length
+        -- an iteration gets the events epoll would report in that state (`readyListeners`) and the waker
+        let it (s : St) : St := ActixNet.Srv.run cfg s [Op.poll ((readyListeners s).map Ev.listener ++ [.waker]) []]
+        let conns : List Op := (List.range n).map fun l => Op.env (.connect l)
+        let s1 := it (ActixNet.Srv.run cfg (ActixNet.Srv.init cfg kinds) conns)
+        let s2 := it (ActixNet.Srv.run cfg (it (ActixNet.Srv.run cfg s1 [Op.env (.cmd .pause)])) conns)
+        let s3 := it (it (ActixNet.Srv.run cfg s2 [Op.env (.cmd .resume)]))
+        (st, s!"during={s2.dispatched.length - s1.dispatched.length} after={s3.dispatched.length - s2.dispatched.length}")
+      else (st, "bad-op")
+    | _, _ => (st, "bad-op")
   | "bld" :: _ =>
     -- a real `Server` built through `ServerBuilder` (calls in the given order), `n` clients held open:
     -- the model's prediction is the state of the accept-loop model after `n` connects and one iteration
